@@ -555,30 +555,99 @@ def rank_fractions(A):
     return rank
 
 
-def _oracle_numeric(hs):
+_REF_P = {}          # fresh dense 1-D prolongations keyed by the knot data (reference side only, never mutated)
+_QUERY_ORDER = [0]   # alternates between THB-first and HB-first query order
+
+
+def _ref_prolongation_1d(kv0, kv1):
+    from pyiga import bspline
+    key = (int(kv0.p), np.ascontiguousarray(kv0.kv).tobytes(), np.ascontiguousarray(kv1.kv).tobytes())
+    if key not in _REF_P:
+        _REF_P[key] = bspline.prolongation(bspline.KnotVector(np.array(kv0.kv, dtype=float), int(kv0.p)),
+                                           bspline.KnotVector(np.array(kv1.kv, dtype=float), int(kv1.p))).toarray()
+    return _REF_P[key]
+
+
+def ref_represent_fine(hs, truncate):
+    """stateless dense reference of `represent_fine(truncate=...)` for the *current* state of `hs`: computed from
+    the knot vectors and the active/deactivated index sets only (fresh prolongations, fresh Kronecker products)"""
+    L = hs.numlevels
+    lv = L - 1
+
+    def rav(fs, k):
+        fs = sorted(fs)
+        if not fs:
+            return np.zeros(0, dtype=int)
+        return np.ravel_multi_index(np.array(fs, dtype=int).T, tuple(int(n) for n in hs.mesh(k).numdofs))
+    idx = [rav(hs.actfun[k], k) for k in range(L)]
+    idx[lv] = np.concatenate((idx[lv], rav(hs.deactfun[lv], lv))).astype(int)
+    M = np.eye(int(hs.mesh(lv).numbf))
+    blocks = [None] * L
+    blocks[lv] = M[:, idx[lv]]
+    for k in reversed(range(lv)):
+        Pk = np.ones((1, 1))
+        for kv0, kv1 in zip(hs.mesh(k).kvs, hs.mesh(k + 1).kvs):
+            Pk = np.kron(Pk, _ref_prolongation_1d(kv0, kv1))
+        Pk = Pk.copy()
+        if truncate:
+            Pk[idx[k + 1], :] = 0
+        M = M @ Pk
+        blocks[k] = M[:, idx[k]]
+    return np.hstack(blocks)
+
+
+def _dense(X):
+    return X.toarray() if hasattr(X, 'toarray') else np.asarray(X)
+
+
+def _oracle_numeric(hs, order=None):
+    """numeric clauses on the object `hs` itself (it keeps whatever internal caches earlier queries left behind).
+    The THB and HB queries are issued in alternating order (THB first / HB first) and every answer is compared
+    with the stateless dense reference of the current space."""
+    if order is None:
+        _QUERY_ORDER[0] ^= 1
+        order = 'thb-first' if _QUERY_ORDER[0] else 'hb-first'
     n = hs.numdofs
-    Rh = hs.represent_fine(truncate=False)
-    A = Rh.toarray()
+    if order == 'thb-first':
+        Rt = _dense(hs.represent_fine(truncate=True))
+        T = _dense(hs.thb_to_hb())
+        H = _dense(hs.hb_to_thb())
+        A = _dense(hs.represent_fine(truncate=False))
+    else:
+        A = _dense(hs.represent_fine(truncate=False))
+        H = _dense(hs.hb_to_thb())
+        T = _dense(hs.thb_to_hb())
+        Rt = _dense(hs.represent_fine(truncate=True))
+    if Rt.shape != A.shape:
+        return 'thb: represent_fine(truncate=True) has shape %s' % (Rt.shape,)
+    refA = ref_represent_fine(hs, False)
+    refT = ref_represent_fine(hs, True)
+    if refA.shape != A.shape or np.abs(A - refA).max() > 1e-9:
+        return 'represent: represent_fine(truncate=False) (queries in order %s on a long-lived object) is not the HB representation of the current space (max deviation %g)' % (
+            order, np.abs(A - refA).max() if refA.shape == A.shape else float('nan'))
+    if np.abs(Rt - refT).max() > 1e-9:
+        return 'represent: represent_fine(truncate=True) (queries in order %s) is not the THB representation of the current space (max deviation %g)' % (order, np.abs(Rt - refT).max())
+    # the default `truncate=None` must follow the attribute of the space
+    D = _dense(hs.represent_fine())
+    if np.abs(D - (refT if hs.truncate else refA)).max() > 1e-9:
+        return 'represent: represent_fine() does not follow HSpace.truncate=%s' % hs.truncate
     Aq = [[Fraction(float(x)).limit_denominator(2 ** 20) if x != 0 else Fraction(0) for x in row] for row in A]
     rk = rank_fractions(Aq)
     if rk != n:
         return 'independence: the %d active functions have rank %d in the finest tensor-product basis' % (n, rk)
-    Rt = hs.represent_fine(truncate=True).toarray()
-    if Rt.shape != A.shape:
-        return 'thb: represent_fine(truncate=True) has shape %s' % (Rt.shape,)
     if Rt.min() < -1e-12:
         return 'thb: represent_fine(truncate=True) has a negative entry %g' % Rt.min()
     rs = Rt.sum(axis=1)
     if np.abs(rs - 1).max() > 1e-10:
         return 'thb: the truncated basis does not sum to one (row sum %r at fine function %d)' % (float(rs[np.abs(rs - 1).argmax()]), int(np.abs(rs - 1).argmax()))
-    T = hs.thb_to_hb()
-    H = hs.hb_to_thb()
-    T = T.toarray() if hasattr(T, 'toarray') else np.asarray(T)
-    H = H.toarray() if hasattr(H, 'toarray') else np.asarray(H)
     if np.abs(H @ T - np.eye(n)).max() > 1e-10 or np.abs(T @ H - np.eye(n)).max() > 1e-10:
         return 'thb: hb_to_thb() @ thb_to_hb() is not the identity'
     if np.abs(A @ T - Rt).max() > 1e-10:
         return 'thb: represent_fine(truncate=False) @ thb_to_hb() differs from represent_fine(truncate=True) by %g' % np.abs(A @ T - Rt).max()
+    # the transforms against the stateless reference: thb_to_hb expresses the THB functions in the HB basis
+    Tref = np.linalg.lstsq(refA, refT, rcond=None)[0]
+    if np.abs(T - Tref).max() > 1e-8:
+        return 'thb: thb_to_hb() (queries in order %s) is not the basis change of the current space (max deviation %g)' % (order, np.abs(T - Tref).max())
     # hypotheses of the matrix-level Lean theorems (truncation_algebra, thb_partition_of_unity),
     # checked on the real matrices: block shape of I - truncate_one_level(k); unit row sums and
     # non-negativity of the 1-D prolongations
@@ -864,6 +933,7 @@ def run(ctx):
                 '3-D (2x2x2, p 1-2), disparity 1/2/3/inf, 1-6 calls mixing refine (truncate on/off, 1-3 levels per call), refine_region predicates and '
                 'empty marks; containers set/frozenset/list/tuple with duplicates, shuffled, missing vs explicit-empty keys. '
                 'deep chains: disparity 2/3, 1-D p 1-2 (one with a double knot) and 2-D 2x2 p 1, 2d+1..2d+3 successive calls marking 1-2 cells of the deepest level (+ sometimes one of the level below); '
+                'long-lived: one HSpace object refined in place 2-3 times (1-D p 1-3, 2-D, disparity inf/1/2, truncate on/off) with represent_fine / thb_to_hb / hb_to_thb queried after every step in alternating THB-first / HB-first order and compared with a stateless dense reference; '
                 'One request per history (every prefix state is reported by the driver), plus a `vsup` request (the five cell_* properties of the final space) for every random and every 6th exhaustive history. non-trivial = final space has >=2 levels and a deactivated function; '
                 'distinct by request line')
     cache = {}
@@ -991,6 +1061,65 @@ def run(ctx):
                 raise
             except Exception as ex:
                 harness_exception(cfg, ex)
+    stream.flush()
+
+    # ---- long-lived objects: ONE HSpace refined in place over several calls (no copies: whatever the object caches
+    # survives the refinements); after the constructor and every refine the THB and HB matrix queries are issued in
+    # alternating order (THB first / HB first) and compared with the stateless reference of the current space; the
+    # state and index queries go through the driver diff as in the other streams
+    ll_base = [([(p, 'uniform', n)], None) for p in (1, 2, 3) for n in (2, 3, 4)]
+    ll_base += [([(2, [2], [0.0, 1.0, 2.0])], 2), ([(1, 'uniform', 2), (1, 'uniform', 2)], None),
+                ([(2, 'uniform', 2), (1, 'uniform', 2)], 1), ([(2, 'uniform', 4)], 1), ([(1, 'uniform', 3)], 2)]
+    nrep = 2 if quick else 12
+    for li, (kvs, disp) in enumerate(ll_base):
+        for rep in range(nrep):
+            for tr in (False, True):
+                cfg = {'kvs': kvs, 'disp': disp, 'truncate': tr, 'kind': 'long%dd' % len(kvs), 'optrunc': False}
+                try:
+                    header = cfg_header(cfg)
+                    hs = make_space(cfg)                      # the one long-lived object
+                    first = 'thb-first' if (rep + li + int(tr)) % 2 == 0 else 'hb-first'
+                    other = {'thb-first': 'hb-first', 'hb-first': 'thb-first'}
+                    steps = [fmt_step(hs, '-', cache)]
+                    ops = []
+                    order = first
+                    bad = None
+                    for _k in range(3 if len(kvs) == 1 else 2):
+                        if _k > 0 or rep % 2 == 0:            # (sometimes the first matrix query comes only after a refine)
+                            bad = _oracle_numeric(hs, order) if int(hs.mesh(hs.numlevels - 1).numbf) <= 300 else None
+                            ctx.count('long-lived queries ' + order)
+                            order = other[order] if rng.integers(0, 3) else order
+                        if bad is not None:
+                            break
+                        cells = [(l, c) for l in range(hs.numlevels) for c in sorted(hs.active_cells(l))]
+                        k = 1 + int(rng.integers(0, min(3, len(cells))))
+                        by = group_by_level([cells[i] for i in rng.permutation(len(cells))[:k]])
+                        op = mk_refine_op(rng, by, False, extra_empty=False)
+                        try:
+                            ret = apply_op(hs, op)            # in place
+                            steps.append(fmt_step(hs, fmt_ret(ret), cache))
+                        except Exception as ex:
+                            steps.append('err-' + type(ex).__name__)
+                            ops.append(op)
+                            break
+                        ops.append(op)
+                    if bad is None and not steps[-1].startswith('err-') and int(hs.mesh(hs.numlevels - 1).numbf) <= 300:
+                        bad = _oracle_numeric(hs, order)
+                        ctx.count('long-lived queries ' + order)
+                    if bad is None and not steps[-1].startswith('err-'):
+                        bad = oracle_space(hs, cfg['disp'], numeric=False)
+                    if bad is not None:
+                        clause = bad.split(':', 1)[0]
+                        ctx.violation('hier-oracle:' + clause, 'the property fails on the implementation (one long-lived HSpace, matrix queries interleaved with refine): ' + bad,
+                                      {'oracle': bad, 'space': cfg_replay(cfg), 'history': [op_replay(o) for o in ops],
+                                       'first_query_order': first,
+                                       'request': ' '.join([header, str(len(ops))] + [op_request(o) for o in ops])}, True)
+                    if not steps[-1].startswith('err-') or len(steps) > 1:
+                        finish_history(cfg, header, ops, steps, hs, 'long-lived')
+                except InfraError:
+                    raise
+                except Exception as ex:
+                    harness_exception(cfg, ex)
     stream.flush()
 
     # ---- random stream
